@@ -22,6 +22,7 @@ namespace TTV.Matchers
 inductive ExcCls
   | baseException | exception | typeError | attributeError | valueError | lookupError | keyError
   | assertionError | keyboardInterrupt | systemExit | notImplementedError
+  | unstable     -- pseudo class: two calls of describe() / str() on the same object gave different text
   | oracleMiss   -- pseudo class: an opaque leaf was asked about a value its table does not list
   | anyCls       -- pseudo class: canonical form of a propagated class that depends on dict/set order
 deriving DecidableEq, Repr
@@ -39,6 +40,7 @@ def ExcCls.ancestors : ExcCls → List ExcCls
   | .keyboardInterrupt => [.keyboardInterrupt, .baseException]
   | .systemExit => [.systemExit, .baseException]
   | .notImplementedError => [.notImplementedError, .exception, .baseException]
+  | .unstable => [.unstable]
   | .oracleMiss => [.oracleMiss]
   | .anyCls => [.anyCls]
 
@@ -190,8 +192,8 @@ def lookupK (k : Key) : List Key → List V → Option V
   | k' :: ks, v :: vs => if k == k' then some v else lookupK k ks vs
   | _, _ => Option.none
 
-/-- `needle in matchee` as `Contains.match` sees it: `TypeError` is caught there and means "not
-contained"; the only other outcome is the `ValueError` of `300 in b'..'`. -/
+/-- `needle in matchee` as `Contains.match` sees it: `TypeError` and `ValueError` (`300 in b'..'`) are
+caught there and mean "not contained". -/
 def pyContains (needle : V) : V → Verdict
   | .list xs => .ofBool (xs.any (veq needle))
   | .tuple xs => .ofBool (xs.any (veq needle))
@@ -203,7 +205,7 @@ def pyContains (needle : V) : V → Verdict
       | _ => .mismatch
   | .bytes b => match needle with
       | .bytes n => .ofBool (infixB n b)
-      | .int n => if 0 ≤ n ∧ n < 256 then .ofBool (b.contains n.toNat) else .raised .valueError
+      | .int n => if 0 ≤ n ∧ n < 256 then .ofBool (b.contains n.toNat) else .mismatch   -- ValueError, caught too
       | _ => .mismatch
   | _ => .mismatch
 
@@ -410,7 +412,8 @@ def firstRaise : List Verdict → Option ExcCls
 /-- `MatchesSetwise.match`: every matcher is asked about every value exactly once (value by value, the
 matchers in the order given): the first exception propagates.  Then as many values as possible are
 paired with matchers (augmenting paths); the verdict is a match iff nothing is left over on either side,
-i.e. iff a one-to-one pairing of all values with all matchers exists — the pairing algorithm itself is
+i.e. iff a one-to-one pairing of all values with all matcher *occurrences* exists (a matcher object given
+twice counts twice) — the pairing algorithm itself is
 not transcribed, its outcome is computed by exhaustive search (`assignB`).  All the left-over branches
 return a Mismatch (the last one re-matches left-over matchers against left-over values listwise: in a
 maximum pairing no left-over matcher accepts a left-over value). -/
